@@ -329,7 +329,7 @@ func TestVerif_C28(t *testing.T) {
 	n := 0
 	for _, p := range vPatsOver(core, 1, 3) {
 		n++
-		if len(p.Parts) < 3 || keep(6) {
+		if len(p.Parts) < 3 || keep(10) {
 			emit([]vPat{p}, false, n%4, uA, "list", false)
 		}
 	}
@@ -377,7 +377,7 @@ func TestVerif_C28(t *testing.T) {
 	for i, p1 := range pp {
 		for j, p2 := range pp {
 			for k := 0; k < 4; k++ {
-				if !keep(12) {
+				if !keep(20) {
 					continue
 				}
 				n++
@@ -386,7 +386,7 @@ func TestVerif_C28(t *testing.T) {
 			}
 		}
 	}
-	for i := 0; i < kit.Pick(150, 2500); i++ {
+	for i := 0; i < kit.Pick(100, 2500); i++ {
 		l := 3 + rnd.Intn(2)
 		var ps []vPat
 		for x := 0; x < l; x++ {
